@@ -384,6 +384,9 @@ class CallMixin:
             return self.call_bound(func, args, kwargs, module, node)
         if isinstance(func, FuncV):
             q = f"{func.module.name}.{getattr(func.fn, 'name', '<lambda>')}"
+            ov = getattr(self, "func_overrides", None)
+            if ov and q in ov:
+                return ov[q](self, args, kwargs)
             if q in self.opaque_funcs:
                 self.event("call_repo_func", func=q, args=args)
                 return Sym("call", RefV(q), tuple(args), _kw(kwargs))
@@ -508,6 +511,16 @@ class CallMixin:
             return self.construct_node(q[len(AST_PREFIX):], args, kwargs, module, node)
         if q in self.repo.classes:
             return self.instantiate(q, args, kwargs, module, node)
+        if q in ("operator.contains", "_operator.contains") and len(args) == 2:
+            return Const(self.contains(self.resolve_alt(args[0]), self.resolve_alt(args[1]), "operator.contains"))
+        if q in ("operator.eq", "_operator.eq") and len(args) == 2:
+            return Const(self.equal(self.resolve_alt(args[0]), self.resolve_alt(args[1]), False, "operator.eq"))
+        if q in ("operator.ne", "_operator.ne") and len(args) == 2:
+            return Const(not self.equal(self.resolve_alt(args[0]), self.resolve_alt(args[1]), False, "operator.ne"))
+        if q in ("operator.is_",) and len(args) == 2:
+            return Const(self.equal(self.resolve_alt(args[0]), self.resolve_alt(args[1]), True, "operator.is_"))
+        if q in ("operator.not_",) and len(args) == 1:
+            return Const(not self.truthy(args[0], "operator.not_"))
         if q == "dataclasses.fields" and len(args) == 1:
             n = self.resolve_alt(args[0])
             if isinstance(n, NodeV):
